@@ -16,6 +16,7 @@ ghost field (QueryPeerset) $idx map[peer.ID]int
 ghost field (QueryPeerset) $has map[peer.ID]bool
 ghost field (QueryPeerset) $src map[int]int
 ghost field (QueryPeerset) $rank map[int]int
+ghost field (QueryPeerset) $cnt int
 
 pred xordist(p peer.ID, k ks.Key) = ksdist(ks.XORKeySpace.Key(bytes(p)), k)
 
@@ -23,9 +24,12 @@ pred wfIdx(qp *QueryPeerset) = all(i, 0, len(qp.all), qp.$has[qp.all[i].id] && q
 pred wfHas(qp *QueryPeerset) = allT(p, peer.ID, imp(qp.$has[p], 0 <= qp.$idx[p] && qp.$idx[p] < len(qp.all) && qp.all[qp.$idx[p]].id == p))
 pred wfDist(qp *QueryPeerset) = all(i, 0, len(qp.all), qp.all[i].distance != nil && bigval(qp.all[i].distance) == xordist(qp.all[i].id, qp.key))
 pred wfSorted(qp *QueryPeerset) = imp(qp.sorted, all(i, 0, len(qp.all), all(j, i+1, len(qp.all), bigval(qp.all[i].distance) <= bigval(qp.all[j].distance))))
-pred wf(qp *QueryPeerset) = wfIdx(qp) && wfHas(qp) && wfDist(qp) && wfSorted(qp)
+pred wfStates(qp *QueryPeerset) = all(i, 0, len(qp.all), 0 <= qp.all[i].state && qp.all[i].state <= 3)
+pred wf(qp *QueryPeerset) = wfIdx(qp) && wfHas(qp) && wfDist(qp) && wfSorted(qp) && wfStates(qp)
 pred stateOf(qp *QueryPeerset, p peer.ID) = qp.all[qp.$idx[p]].state
-pred inStates(s PeerState, states []PeerState) = ex(i, 0, len(states), states[i] == s)
+# membership in the (short) variadic state list: the first four positions are
+# spelled out so that literal lists evaluate without quantifier instantiation
+pred inStates(s PeerState, states []PeerState) = (len(states) > 0 && states[0] == s) || (len(states) > 1 && states[1] == s) || (len(states) > 2 && states[2] == s) || (len(states) > 3 && states[3] == s) || ex(i, 4, len(states), states[i] == s)
 # every peer of the set keeps its entry (id, distance, state, referrer)
 pred sameEntries(qp *QueryPeerset) = allT(x, peer.ID, imp(qp.$has[x], qp.all[qp.$idx[x]] == old(qp.all[qp.$idx[x]])))
 
@@ -67,6 +71,7 @@ func (qp *QueryPeerset) TryAdd(p, referredBy peer.ID) bool
   ensures wfHas(qp)
   ensures wfDist(qp)
   ensures wfSorted(qp)
+  ensures wfStates(qp)
   ensures result == !old(qp.$has[p]) && qp.$has[p]
   ensures allT(x, peer.ID, imp(x != p, qp.$has[x] == old(qp.$has[x])))
   ensures imp(result, stateOf(qp, p) == PeerHeard && qp.all[qp.$idx[p]].referredBy == referredBy && qp.all[qp.$idx[p]].id == p)
@@ -81,18 +86,21 @@ func (qp *QueryPeerset) sort()
   ensures wfHas(qp)
   ensures wfDist(qp)
   ensures wfSorted(qp)
+  ensures wfStates(qp)
   ensures qp.sorted
   ensures len(qp.all) == old(len(qp.all))
   ensures sameEntries(qp)
+  ensures imp(old(qp.sorted), qp.all == old(qp.all) && qp.$idx == old(qp.$idx))
   ghost at call(Sort): qp.$idx = mapcomp(x, peer.ID, ite(qp.$has[x], $sortinv(qp.$idx[x]), qp.$idx[x]))
 
 func (qp *QueryPeerset) SetState(p peer.ID, s PeerState)
-  requires wf(qp) && qp.$has[p]
+  requires wf(qp) && qp.$has[p] && 0 <= s && s <= 3
   modifies qp.all
   ensures wfIdx(qp)
   ensures wfHas(qp)
   ensures wfDist(qp)
   ensures wfSorted(qp)
+  ensures wfStates(qp)
   ensures stateOf(qp, p) == s
   ensures len(qp.all) == old(len(qp.all))
   ensures allT(x, peer.ID, imp(x != p && qp.$has[x], qp.all[qp.$idx[x]] == old(qp.all[qp.$idx[x]])))
@@ -110,20 +118,23 @@ func (qp *QueryPeerset) GetReferrer(p peer.ID) peer.ID
 
 func (qp *QueryPeerset) GetClosestNInStates(n int, states ...PeerState) (result []peer.ID)
   requires wf(qp) && n >= 0
-  modifies qp.all, qp.sorted, qp.$idx, qp.$src, qp.$rank
+  modifies qp.all, qp.sorted, qp.$idx, qp.$src, qp.$rank, qp.$cnt
   ghostvar $src map[int]int = any
   ghostvar $rank map[int]int = any
   ensures wfIdx(qp)
   ensures wfHas(qp)
   ensures wfDist(qp)
   ensures wfSorted(qp)
+  ensures wfStates(qp)
   ensures qp.sorted
   ensures len(qp.all) == old(len(qp.all))
   ensures sameEntries(qp)
-  ensures len(result) <= n
+  ensures imp(old(qp.sorted), qp.all == old(qp.all) && qp.$idx == old(qp.$idx))
+  ensures len(result) <= n && qp.$cnt == len(result)
   ensures [sound] all(j, 0, len(result), 0 <= qp.$src[j] && qp.$src[j] < len(qp.all) && result[j] == qp.all[qp.$src[j]].id && inStates(qp.all[qp.$src[j]].state, states))
   ensures [order] all(a, 0, len(result), all(b, a+1, len(result), qp.$src[a] < qp.$src[b]))
   ensures [lower] all(j, 0, len(result), qp.$src[j] >= j)
+  ensures [full] imp(n >= len(qp.all), all(m, 0, len(qp.all), imp(inStates(qp.all[m].state, states), 0 <= qp.$rank[m] && qp.$rank[m] < len(result) && qp.$src[qp.$rank[m]] == m)))
   ensures [complete] all(m, 0, len(qp.all), imp(inStates(qp.all[m].state, states), (0 <= qp.$rank[m] && qp.$rank[m] < len(result) && qp.$src[qp.$rank[m]] == m) || (len(result) == n && all(j, 0, len(result), qp.$src[j] < m))))
   ensures [ascending] all(a, 0, len(result), all(b, a+1, len(result), bigval(qp.all[qp.$src[a]].distance) <= bigval(qp.all[qp.$src[b]].distance) && result[a] != result[b]))
   ensures [topK] all(m, 0, len(qp.all), imp(inStates(qp.all[m].state, states) && !(0 <= qp.$rank[m] && qp.$rank[m] < len(result) && qp.$src[qp.$rank[m]] == m), all(j, 0, len(result), bigval(qp.all[qp.$src[j]].distance) <= bigval(qp.all[m].distance))))
@@ -134,43 +145,50 @@ func (qp *QueryPeerset) GetClosestNInStates(n int, states ...PeerState) (result 
   loop over qp.all invariant len(result) <= $key && all(j, 0, len(result), $src[j] >= j)
   loop over qp.all invariant all(k, 0, $key, imp(inStates(qp.all[k].state, states), 0 <= $rank[k] && $rank[k] < len(result) && $src[$rank[k]] == k))
   ghost at append(result): $src[len(result)-1] = $key; $rank[$key] = len(result)-1
-  ghost at return: qp.$src = $src; qp.$rank = $rank
+  ghost at return: qp.$src = $src; qp.$rank = $rank; qp.$cnt = len(result)
 
 func (qp *QueryPeerset) GetClosestInStates(states ...PeerState) (result []peer.ID)
   requires wf(qp)
-  modifies qp.all, qp.sorted, qp.$idx, qp.$src, qp.$rank
+  modifies qp.all, qp.sorted, qp.$idx, qp.$src, qp.$rank, qp.$cnt
   ensures wfIdx(qp)
   ensures wfHas(qp)
   ensures wfDist(qp)
   ensures wfSorted(qp)
+  ensures wfStates(qp)
   ensures qp.sorted
   ensures len(qp.all) == old(len(qp.all))
   ensures sameEntries(qp)
+  ensures imp(old(qp.sorted), qp.all == old(qp.all) && qp.$idx == old(qp.$idx))
+  ensures qp.$cnt == len(result)
   ensures [sound] all(j, 0, len(result), 0 <= qp.$src[j] && qp.$src[j] < len(qp.all) && result[j] == qp.all[qp.$src[j]].id && inStates(qp.all[qp.$src[j]].state, states))
   ensures [order] all(a, 0, len(result), all(b, a+1, len(result), qp.$src[a] < qp.$src[b]))
   ensures [complete] all(m, 0, len(qp.all), imp(inStates(qp.all[m].state, states), 0 <= qp.$rank[m] && qp.$rank[m] < len(result) && qp.$src[qp.$rank[m]] == m))
 
 func (qp *QueryPeerset) NumHeard() int
   requires wf(qp)
-  modifies qp.all, qp.sorted, qp.$idx, qp.$src, qp.$rank
+  modifies qp.all, qp.sorted, qp.$idx, qp.$src, qp.$rank, qp.$cnt
   ensures wfIdx(qp)
   ensures wfHas(qp)
   ensures wfDist(qp)
   ensures wfSorted(qp)
+  ensures wfStates(qp)
   ensures len(qp.all) == old(len(qp.all))
   ensures sameEntries(qp)
-  ensures result >= 0
+  ensures imp(old(qp.sorted), qp.all == old(qp.all) && qp.$idx == old(qp.$idx))
+  ensures result >= 0 && qp.sorted
   ensures iff(result == 0, all(m, 0, len(qp.all), qp.all[m].state != PeerHeard))
 
 func (qp *QueryPeerset) NumWaiting() int
   requires wf(qp)
-  modifies qp.all, qp.sorted, qp.$idx, qp.$src, qp.$rank
+  modifies qp.all, qp.sorted, qp.$idx, qp.$src, qp.$rank, qp.$cnt
   ensures wfIdx(qp)
   ensures wfHas(qp)
   ensures wfDist(qp)
   ensures wfSorted(qp)
+  ensures wfStates(qp)
   ensures len(qp.all) == old(len(qp.all))
   ensures sameEntries(qp)
-  ensures result >= 0
+  ensures imp(old(qp.sorted), qp.all == old(qp.all) && qp.$idx == old(qp.$idx))
+  ensures result >= 0 && qp.sorted
   ensures iff(result == 0, all(m, 0, len(qp.all), qp.all[m].state != PeerWaiting))
 @*/
